@@ -1781,6 +1781,11 @@ func isExecuteAction(str string) actionType {
 	}
 
 	prefix := actionNameRegexp.FindString(str)
+	// The argument must start right after the name. The mask may have come from
+	// an action that follows a misspelt name, e.g. "execute1:reload(x)".
+	if len(prefix) >= len(str) || !strings.ContainsRune(":([{<~!@#$%^&*;/|", rune(str[len(prefix)])) {
+		return actIgnore
+	}
 	switch prefix {
 	case "become":
 		return actBecome
